@@ -321,6 +321,16 @@ Definition network_stats (dbg : bool) (now : Z) (s : ep) : res stats_result :=
   | _ => Ok StatsNotSynchronized
   end.
 
+(* ---------- code versions ----------
+   The model follows the current code; the two repairs made to the endpoint during this verification
+   can be switched off to obtain the earlier behaviour (used only by the refutation witnesses):
+   [fix_send_guard]  7ec8d35: send_input raises Disconnected once, under disconnect_event_sent;
+   [fix_quiet_dead]  25d3021: no NetworkResumed / NetworkInterrupted once disconnect_event_sent is set. *)
+Record fixes : Set := mkFixes { fix_send_guard : bool; fix_quiet_dead : bool }.
+Definition current_code : fixes := mkFixes true true.
+Definition before_25d3021 : fixes := mkFixes true false.
+Definition before_7ec8d35 : fixes := mkFixes false false.
+
 (* ---------- receiving ---------- *)
 Fixpoint pop_pending (ack : Z) (po : list ibytes) (la : ibytes) : list ibytes * ibytes :=
   match po with
@@ -491,11 +501,12 @@ Definition passes_filters (s : ep) (m : message) : bool :=
   && negb ((pstate_eqb (u_state s) PInitializing || pstate_eqb (u_state s) PSynchronizing)
            && negb (is_handshake (m_body m))).
 
-Definition handle_message (dbg : bool) (now nonce : Z) (m : message) (s : ep) : res ep :=
+Definition handle_message_gen (fx : fixes) (dbg : bool) (now nonce : Z) (m : message) (s : ep) : res ep :=
   if negb (passes_filters s m) then Ok s
   else
     let s1 := set_last_recv_time now s in
     let s2 := if u_notify_sent s1 && pstate_eqb (u_state s1) PRunning
+                 && (if fix_quiet_dead fx then negb (u_event_sent s1) else true)
               then push_event EvNetworkResumed (set_notify_sent false s1) else s1 in
     match m_body m with
     | SyncRequest n => Ok (queue_message now (SyncReply n) s2)
@@ -507,9 +518,10 @@ Definition handle_message (dbg : bool) (now nonce : Z) (m : message) (s : ep) : 
     | ChecksumReport c f => on_checksum_report dbg c f s2
     | KeepAlive => Ok s2
     end.
+Definition handle_message := handle_message_gen current_code.
 
 (* ---------- poll ---------- *)
-Definition poll_running (now : Z) (connect_status : list status) (s : ep) : res ep :=
+Definition poll_running_gen (fx : fixes) (now : Z) (connect_status : list status) (s : ep) : res ep :=
   let r1 := if u_last_input_recv s + RUNNING_RETRY_INTERVAL <? now then
               match send_pending_output now connect_status s with
               | Ok t => Ok (set_last_input_recv now t)
@@ -524,7 +536,8 @@ Definition poll_running (now : Z) (connect_status : list status) (s : ep) : res 
     match r2 with
     | Ok s2 =>
       let s3 := if u_last_send_time s2 + KEEP_ALIVE_INTERVAL <? now then send_keep_alive now s2 else s2 in
-      let s4 := if negb (u_notify_sent s3) && (u_last_recv_time s3 + u_notify_start s3 <? now)
+      let s4 := if negb (u_notify_sent s3) && (if fix_quiet_dead fx then negb (u_event_sent s3) else true)
+                   && (u_last_recv_time s3 + u_notify_start s3 <? now)
                 then set_notify_sent true
                        (push_event (EvNetworkInterrupted (Z.max 0 (u_timeout s3 - u_notify_start s3))) s3)
                 else s3 in
@@ -539,12 +552,14 @@ Definition poll_running (now : Z) (connect_status : list status) (s : ep) : res 
   | Panic => Panic
   end.
 
-Definition poll (now nonce : Z) (connect_status : list status) (s : ep) : res (list event * ep) :=
+Definition poll_running := poll_running_gen current_code.
+
+Definition poll_gen (fx : fixes) (now nonce : Z) (connect_status : list status) (s : ep) : res (list event * ep) :=
   let r := match u_state s with
            | PSynchronizing =>
              Ok (if u_last_sync_request_time s + SYNC_RETRY_INTERVAL <? now
                  then send_sync_request now nonce s else s)
-           | PRunning => poll_running now connect_status s
+           | PRunning => poll_running_gen fx now connect_status s
            | PDisconnected =>
              Ok (if u_shutdown_timeout s <? now then set_state PShutdown s else s)
            | PInitializing | PShutdown => Ok s
@@ -554,12 +569,13 @@ Definition poll (now nonce : Z) (connect_status : list status) (s : ep) : res (l
   | Err => Err
   | Panic => Panic
   end.
+Definition poll := poll_gen current_code.
 
 (* ---------- send_input ---------- *)
-(* [guarded = true]: the code since 7ec8d35 (Disconnected is raised once, under disconnect_event_sent);
-   [guarded = false]: the code before, which pushed Event::Disconnected on every call while more than
+(* with [fix_send_guard]: the code since 7ec8d35 (Disconnected is raised once, under disconnect_event_sent);
+   without: the code before, which pushed Event::Disconnected on every call while more than
    PENDING_OUTPUT_SIZE inputs were pending (kept for the refutation witness) *)
-Definition send_input_gen (guarded : bool) (now : Z) (inputs : list (Z * (Z * Z))) (connect_status : list status)
+Definition send_input_gen (fx : fixes) (now : Z) (inputs : list (Z * (Z * Z))) (connect_status : list status)
                           (s : ep) : res ep :=
   if negb (pstate_eqb (u_state s) PRunning) then Ok s
   else
@@ -569,7 +585,7 @@ Definition send_input_gen (guarded : bool) (now : Z) (inputs : list (Z * (Z * Z)
       | Ok ts =>
         let s1 := set_pending_output (u_pending_output s ++ [data]) (set_time_sync ts s) in
         let s2 := if (PENDING_OUTPUT_SIZE <? N.of_nat (length (u_pending_output s1)))%N
-                  then (if guarded
+                  then (if fix_send_guard fx
                         then (if u_event_sent s1 then s1 else set_event_sent true (push_event EvDisconnected s1))
                         else push_event EvDisconnected s1)
                   else s1 in
@@ -580,8 +596,7 @@ Definition send_input_gen (guarded : bool) (now : Z) (inputs : list (Z * (Z * Z)
     | Err => Err
     | Panic => Panic
     end.
-Definition send_input := send_input_gen true.
-Definition send_input_old := send_input_gen false.
+Definition send_input := send_input_gen current_code.
 
 (* ---------- operations as data (scripts, traces) ---------- *)
 Inductive op : Set :=
@@ -594,23 +609,21 @@ Inductive op : Set :=
 | OAdvantage (local_frame : Z)
 | ODrain.
 
-(* one operation: the endpoint afterwards and the events handed to the caller (poll only);
-   [guarded] selects the send_input of the current code (true) or of the code before 7ec8d35 *)
-Definition step_gen (guarded : bool) (dbg : bool) (o : op) (s : ep) : res (ep * list event) :=
+(* one operation: the endpoint afterwards and the events handed to the caller (poll only) *)
+Definition step_gen (fx : fixes) (dbg : bool) (o : op) (s : ep) : res (ep * list event) :=
   match o with
   | OSynchronize now nonce =>
     match synchronize now nonce s with Ok t => Ok (t, []) | Err => Err | Panic => Panic end
   | OMessage now nonce m =>
-    match handle_message dbg now nonce m s with Ok t => Ok (t, []) | Err => Err | Panic => Panic end
+    match handle_message_gen fx dbg now nonce m s with Ok t => Ok (t, []) | Err => Err | Panic => Panic end
   | OPoll now nonce cs =>
-    match poll now nonce cs s with Ok (evs, t) => Ok (t, evs) | Err => Err | Panic => Panic end
+    match poll_gen fx now nonce cs s with Ok (evs, t) => Ok (t, evs) | Err => Err | Panic => Panic end
   | OSendInput now inputs cs =>
-    match send_input_gen guarded now inputs cs s with Ok t => Ok (t, []) | Err => Err | Panic => Panic end
+    match send_input_gen fx now inputs cs s with Ok t => Ok (t, []) | Err => Err | Panic => Panic end
   | ODisconnect now => Ok (disconnect now s, [])
   | OChecksum now frame checksum => Ok (send_checksum_report now frame checksum s, [])
   | OAdvantage local_frame =>
     match update_local_frame_advantage dbg local_frame s with Ok t => Ok (t, []) | Err => Err | Panic => Panic end
   | ODrain => Ok (snd (drain s), [])
   end.
-Definition step := step_gen true.
-Definition step_old := step_gen false.
+Definition step := step_gen current_code.
